@@ -101,6 +101,8 @@ pub enum Error {
         expected: usize,
         found: usize,
     },
+    #[error("at path {path_hint:?}: anon map size not within bounds")]
+    AnonMapSizeNotWithinBounds { path_hint: String },
     #[error("at path {path_hint:?}: exactly one variant value must be present, found {}", .num_variant_values_found)]
     ExactlyOneVariantValueRequired {
         path_hint: String,
